@@ -32,6 +32,9 @@ type c18Case struct {
 	Ending  string // close-1000 | close-1001 | close-other | transport-eof | transport-reset | wrong-type
 	WrongAt int
 	Code    int
+	// Hangup: the peer closes the transport right behind its Close frame instead of
+	// waiting for the echo (only drawn when this side writes nothing itself).
+	Hangup bool
 }
 
 var c18Sizes = []int{0, 0, 1, 2, 100, 125, 126, 4095, 4096, 4097, 20000, 65535, 65536, 70000}
@@ -54,6 +57,9 @@ func genC18(rt *rapid.T) c18Case {
 	c.Ending = rapid.SampledFrom([]string{"close-1000", "close-1001", "close-other", "transport-eof", "transport-reset", "wrong-type"}).Draw(rt, "ending")
 	c.Code = rapid.SampledFrom([]int{1002, 1008, 1011, 3000, 4999, -1}).Draw(rt, "otherCode")
 	c.WrongAt = rapid.IntRange(0, len(c.In)).Draw(rt, "wrongAt")
+	if len(c.Out) == 0 && strings.HasPrefix(c.Ending, "close-") {
+		c.Hangup = rapid.Bool().Draw(rt, "hangup")
+	}
 	return c
 }
 
@@ -140,6 +146,9 @@ func runC18Stream(t fataler, c c18Case) (string, c18Result) {
 			lc.End.CloseWrite(memconn.ErrReset)
 		case "wrong-type":
 			sendMsg(0, []byte("a message of the other type"), wrongOp)
+		}
+		if c.Hangup {
+			lc.End.Close() // everything sent stays readable; the echo of the Close frame cannot be written any more
 		}
 	})
 	for i, n := range c.In {
@@ -267,7 +276,7 @@ func runC18Stream(t fataler, c c18Case) (string, c18Result) {
 
 func TestC18(t *testing.T) {
 	rec := evid.For("C18")
-	rec.Rule = "stream: rapid draws inbound message sizes (0..70000, boundary-biased, fragmented, alternately compressed) against cycled Read buffer sizes (1..100000), Write sizes, message type, role/compression, and an ending {peer Close 1000, 1001, another code or empty, transport EOF, transport reset, a message of the wrong type at a drawn position}; deadlines: rapid-drawn scripts of SetReadDeadline/SetWriteDeadline/SetDeadline (past, future, zero) before, between and during calls on the fake clock. Non-trivial: a read buffer smaller than a message (message spans several reads), or an idle expiry followed by a reset and further traffic. distinct = hash of the case."
+	rec.Rule = "stream: rapid draws inbound message sizes (0..70000, boundary-biased, fragmented, alternately compressed) against cycled Read buffer sizes (1..100000), Write sizes, message type, role/compression, and an ending {peer Close 1000, 1001, another code or empty - with the peer waiting for the echo or hanging up right behind its Close frame -, transport EOF, transport reset, a message of the wrong type at a drawn position}; deadlines: rapid-drawn scripts of SetReadDeadline/SetWriteDeadline/SetDeadline (past, future, zero) before, between and during calls on the fake clock. Non-trivial: a read buffer smaller than a message (message spans several reads), or an idle expiry followed by a reset and further traffic. distinct = hash of the case."
 	rapid.Check(t, func(rt *rapid.T) {
 		c := genC18(rt)
 		var msg string
